@@ -592,6 +592,11 @@ func TestC16(t *testing.T) {
 		i := i
 		jobs = append(jobs, func(idx int, em *Emitter) { runProxyE2E(t, idx, i, em) })
 	}
+	// resets through the proxy: a cancelled stream cancels the handler, a body for an unknown stream is answered by a reset
+	for i := 0; i < 2; i++ {
+		i := i
+		jobs = append(jobs, func(idx int, em *Emitter) { runProxyResetE2E(t, idx, i, em) })
+	}
 	// free-running stress judged by the property predicates
 	for i := 0; i < proxyFreeCount(); i++ {
 		i := i
